@@ -1,4 +1,4 @@
-CONSTANTS Clients = {1, 2} Services = {"a", "b"} Supported = {"a", "b"} Base = 1 S = 1 MaxFrames = 4 Threaded = FALSE LevelsUsed = {1} Discards = {FALSE}
+CONSTANTS Clients = {1, 2} Services = {"a", "b"} Supported = {"a", "b"} Base = 1 S = 1 MaxFrames = 4 Threaded = FALSE LevelsUsed = {1} Discards = {FALSE} Faulty = {1}
 SPECIFICATION Spec
 PROPERTIES NeverLost
 CHECK_DEADLOCK FALSE
